@@ -192,7 +192,7 @@ Example extension_example :
   process false [] [] [DRule bad; DTxn t] = [Err EUnbalanced].
 Proof. cbv zeta. repeat split; vm_compute; reflexivity. Qed.
 
-(* FINDING (known_findings.txt F22).  The full statement - EVERY posting of the transaction that
+(* FINDING (known_findings.txt F33).  The full statement - EVERY posting of the transaction that
    matches and was not made by a rule receives the rule's postings - is false of the faithful
    model: when an elided amount stands for several commodities, finalize (xact.cc:143-153) creates
    the second and later postings with ITEM_GENERATED, and extend_xact skips them like rule output.
